@@ -415,6 +415,7 @@ class Interp:
                 self.methods.setdefault(d["record"], []).append(d)
         self.trace_arith = []
         self.executed = set()   # pattern locations of every function evaluated abstractly
+        self.divzero = []       # divisions by a value known to be exactly zero (defined for IEEE types only)
 
     # -- lookup -----------------------------------------------------------------------
     def func(self, decl_id):
@@ -1057,6 +1058,9 @@ class Interp:
                 return 1 if (isnull == (op == "==")) else 0
             raise OutOfFragment("comparison %s of %r and %r" % (op, x, y))
         if op in ("+", "-", "*", "/") and isinstance(x, Sc) and isinstance(y, Sc):
+            if op == "/" and y.v == 0:
+                fn = self.frames[-1]["__fn__"] if self.frames else None
+                self.divzero.append((fn.pkey, fn.pqn, fn.qn, e.get("l")) if fn is not None else None)
             return sc_arith(op, x, y)
         if op in ("+", "-"):
             if isinstance(x, int) and isinstance(y, int):
@@ -1549,11 +1553,7 @@ class Interp:
                     if base in ("std::find", "std::count"):
                         h = self._eq(el, A[2])
                     else:
-                        fn = val(A[2])
-                        f = self.func(fn.callop) if isinstance(fn, Closure) else None
-                        if f is None:
-                            raise OutOfFragment("predicate")
-                        h = self.truth(self.call(f, None, [el]))
+                        h = self.truth(self._invoke(A[2], [el]))
                     hits.append(h)
                 if base == "std::find":
                     return Iter(first.vec, first.pos + hits.index(True) if True in hits else last.pos)
